@@ -34,7 +34,7 @@ def run(res, replay=None):
             rng.shuffle(ts)
             extra = sorted(set(rng.sample([0.125, 0.375, 0.625, 0.875, 1.25, 1.75, 2.5, 4.0], 3)))
             a = rng.choice([0.0, 0.25, 0.5, 1.0])
-            cases.append({'spec': s, 'ts': ts, 'extra_times': extra, 'T': rng.choice([0.5, 1.0, 2.0, 3.5]),
+            cases.append({'spec': s, 'ts': ts, 'extra_times': extra, 'T': rng.choice([0.0, 0.5, 1.0, 2.0, 3.5]),
                           'window': [a, a + rng.choice([0.25, 0.5, 1.0, 2.0])]})
     results = orc.run_oracle(res, 'accumulation', cases, chunk=1)
     # accumulation curves on multi-point grids against the Gallina propagation loop, incl. rewards that stall
